@@ -352,9 +352,9 @@ __CPROVER_decreases(self->m_max_iters - iters)
 #define NV_CONTRACT_gs_do_minimize NV_NONLS_REQUIRES NV_NONLS_ASSIGNS \
 __CPROVER_ensures(NV_STATUS_OK(NV_RET.m_status)) \
 __CPROVER_ensures(NV_GS_STATE(NV_RET)) \
-/* "unless the status is failed the returned point and value are finite".  REFUTED on the library as it is (genuine defect, \
+/* "unless the status is failed the returned point and value are finite".  Refuted before the library repair 16a363d (genuine defect, \
  * replay/C02_gs_replay.cpp): lsearch_t::step moves the state to a trial point accepted by `fx < state.fx() - t * df` (true for \
- * fx = -inf); when the budget test then ends the loop the state is returned with status max_iters without a valid() test */ \
+ * fx = -inf); when the budget test then ended the loop the state was returned with status max_iters without a valid() test */ \
 __CPROVER_ensures(NV_RET.m_status != NVE_solver_status_failed ==> (NV_ISFIN(NV_RET.m_fx) && NV_RET.xfin)) \
 __CPROVER_ensures(nv_gcount <= nv_ver_counter && nv_ver_counter < 2000000000u && nv_ver_counter + nv_gcount < (uint64_t)nv_max_evals + 2 * 2000000u + 104)
 #define NV_LOOP_gs_do_minimize_1 \
